@@ -311,8 +311,12 @@ impl<'tcx> Cx<'tcx> {
             j.set("uneval", J::s(format!("{:?}", c)));
             return j;
         }
-        // structured constants (enums like Some(Equal), tuples, arrays, small structs)
-        if matches!(ty.kind(), ty::Adt(..) | ty::Tuple(..) | ty::Array(..)) {
+        // structured constants (enums like Some(Equal), tuples, arrays, small structs, refs to those)
+        let is_ref_to_struct = match ty.kind() {
+            ty::Ref(_, inner, _) => matches!(inner.kind(), ty::Adt(..) | ty::Tuple(..) | ty::Array(..)),
+            _ => false,
+        };
+        if matches!(ty.kind(), ty::Adt(..) | ty::Tuple(..) | ty::Array(..)) || is_ref_to_struct {
             if let Ok(val) = c.eval(tcx, env, rustc_span::DUMMY_SP) {
                 if let Some(sj) = self.const_struct(val, ty, 0) {
                     j.set("struct", sj);
@@ -360,6 +364,20 @@ impl<'tcx> Cx<'tcx> {
             return Some(j);
         }
         match ty.kind() {
+            ty::Ref(_, inner, _) => {
+                let sc = val.try_to_scalar()?;
+                if let rustc_middle::mir::interpret::Scalar::Ptr(ptr, _) = sc {
+                    let (prov, offset) = ptr.prov_and_relative_offset();
+                    let alloc_id = prov.alloc_id();
+                    if !matches!(tcx.try_get_global_alloc(alloc_id), Some(rustc_middle::mir::interpret::GlobalAlloc::Memory(_))) {
+                        return None;
+                    }
+                    let inner_val = ConstValue::Indirect { alloc_id, offset };
+                    let ij = self.const_struct(inner_val, *inner, depth + 1)?;
+                    return Some(J::obj().with("ty", tj).with("ref", ij));
+                }
+                None
+            }
             ty::Adt(def, _) if !def.is_union() => {
                 let d = std::panic::catch_unwind(std::panic::AssertUnwindSafe(|| {
                     tcx.try_destructure_mir_constant_for_user_output(val, ty)
